@@ -505,11 +505,13 @@ class ProgGen:
         if not cands:
             return self.s_assign_new(depth) if self.pure else self.s_write_expr(depth)
         v = self.r.choice(cands)
+        looping = self.loop_depth > 0 or self.in_main_loop or self.in_function
         if v.type == "int":
-            op = self.r.choice(["+=", "-=", "*=", "+="])
+            # repeated multiplication inside loops / across passes leaves the +-10^4 range (16-bit int on the AVR)
+            op = self.r.choice(["+=", "-=", "+="] + ([] if looping else ["*="]))
             rhs = self.int_lit(0, 3) if op == "*=" else self.e_int(2)
         elif v.type == "float":
-            op = self.r.choice(["+=", "-=", "*="])
+            op = self.r.choice(["+=", "-="] + ([] if looping else ["*="]))
             rhs = self.r.choice(["0.5", "2.0", "1.5"]) if op == "*=" else (self.e_float(2) if self.chance(0.6) else self.int_lit())
         else:
             op = "+="
@@ -803,6 +805,10 @@ class ProgGen:
                 self.feat("annotated-params")
         else:
             sig = ", ".join(pnames)
+            if ret is None and any(t != "int" for t in ptypes):
+                self.feat("hz:stmt-call-types")
+            if self.h("param-retype") and any(t != "int" for t in ptypes):
+                self.feat("hz:param-retype")
         self.emit(f"def {name}({sig}):")
         self.feat("def")
         self.in_function = True
@@ -861,6 +867,11 @@ class ProgGen:
         # a few globals first so functions may use `global`
         for _ in range(r.randint(1, 3)):
             self.s_assign_new(0)
+        if self.use_lists:
+            for _ in range(r.choice([0, 1, 1, 2])):
+                self.s_list_new(0)
+                if self.chance(0.6):
+                    self.s_list_op(0)
         if self.use_funcs:
             made = [self.gen_function() for _ in range(r.choice([0, 1, 1, 2, 3]))]
             # every helper is called at least once (an uncalled helper keeps an all-int signature that may
